@@ -189,6 +189,9 @@ package resolve
 //@   at call isEmptyEntityFetch: ghost g_benign = g_benign || (result && g_dataNull)
 //@   at call result.emptyAliasIsBenign: ghost g_benign = g_benign || result
 //@   ensures {silent.success.only.if.merged.or.benign} result == nil ==> count(merged) > old(count(merged)) || count(dataSet) > old(count(dataSet)) || count(errorRendered) > old(count(errorRendered)) || count(errorsMerged) > old(count(errorsMerged)) || g_benign || skipped || suppress || (res.batchStats != nil && g_batchLen == len(res.batchStats))
+//@   let authRej = res.authorizationRejected
+//@   let rateRej = res.rateLimitRejected
+//@   ensures {a.fetch.that.delivered.nothing.blocks.its.dependents} result == nil && count(merged) == old(count(merged)) && count(dataSet) == old(count(dataSet)) && !g_benign && !skipped && !authRej && !rateRej && !(res.batchStats != nil && g_batchLen == len(res.batchStats)) && fetchItem != nil && fetchItem.Fetch != nil && depsOf(fetchItem.Fetch) != nil ==> l.erroredFetchIDs != nil && has(l.erroredFetchIDs, depsOf(fetchItem.Fetch).FetchID)
 //@   modifies *, count(merged), count(dataSet), count(errorRendered), count(errorsMerged), count(arrayAppended), count(jsonSet)
 //@   ghost var g_batchLen int = 0 - 1
 //@   at call Value.GetArray: ghost g_batchLen = len(result)
@@ -198,13 +201,15 @@ package resolve
 //@     invariant phi0 >= 0 ==> count(merged) > old(count(merged))
 
 //@ func Loader.renderErrorsFailedToFetch
-//@   modifies *, count(arrayAppended)
+//@   requires l != nil
+//@   ensures {the.fetch.is.recorded.as.errored} fetchItem != nil && fetchItem.Fetch != nil && depsOf(fetchItem.Fetch) != nil ==> l.erroredFetchIDs != nil && has(l.erroredFetchIDs, depsOf(fetchItem.Fetch).FetchID)
+//@   modifies *, count(arrayAppended), count(jsonSet)
 //@   emits errorRendered
-//@   trusted effect summary: appends one error object to l.errors or returns an error
 //@ func Loader.renderErrorsStatusFallback
-//@   modifies *, count(arrayAppended)
+//@   requires l != nil
+//@   ensures {the.fetch.is.recorded.as.errored} fetchItem != nil && fetchItem.Fetch != nil && depsOf(fetchItem.Fetch) != nil ==> l.erroredFetchIDs != nil && has(l.erroredFetchIDs, depsOf(fetchItem.Fetch).FetchID)
+//@   modifies *, count(arrayAppended), count(jsonSet)
 //@   emits errorRendered
-//@   trusted effect summary: appends one error object to l.errors or returns an error
 //@ func Loader.renderErrorsFailedDeps
 //@   modifies *, count(arrayAppended)
 //@   emits errorRendered
